@@ -17,10 +17,10 @@ UNIT_TIMEOUT = {'quick': 280, 'thorough': 1500}
 CONFIGS = {
     'quick': [('electricity', 2, 2, 1, {}), ('direct-use', 2, 2, 1, {'em': 1}), ('chiller', 2, 1, 1, {'em': 3}), ('heat-pump', 2, 2, 2, {}), ('district-heating', 2, 1, 1, {}),
               ('cogen-topping', 2, 2, 1, {'em': 3, 'carbon': True}), ('cogen-bottoming', 2, 1, 2, {}), ('cogen-parallel', 2, 2, 1, {'em': 1}),
-              ('electricity', 3, 2, 1, {'overpressure': True}), ('electricity', 2, 1, 1, {'segments': 3, 'ramey': False, 'pi': True, 'alt': True}), ('direct-use', 2, 1, 1, {'splitwell': True})],
+              ('electricity', 3, 2, 1, {'overpressure': True}), ('electricity', 2, 1, 1, {'segments': 3, 'ramey': False, 'pi': True, 'alt': True}), ('direct-use', 2, 1, 1, {'splitwell': True}), ('direct-use', 2, 1, 1, {'sdac': True})],
     'thorough': [(k, L, T, K, x) for k in c04.KINDS for (L, T, K) in ((2, 2, 1), (3, 1, 2), (4, 3, 3)) for x in ({}, {'em': 1}, {'em': 3, 'carbon': True})] +
                 [('electricity', 3, 2, 1, {'overpressure': True}), ('electricity', 2, 1, 1, {'segments': 3, 'ramey': False, 'pi': True}),
-                 ('direct-use', 3, 2, 1, {'overpressure': True, 'pi': True}), ('direct-use', 2, 1, 1, {'splitwell': True}), ('electricity', 2, 2, 2, {'splitwell': True, 'em': 3}), ('electricity', 2, 2, 1, {'resmodel': 1}), ('direct-use', 2, 2, 1, {'resmodel': 3})],
+                 ('direct-use', 3, 2, 1, {'overpressure': True, 'pi': True}), ('direct-use', 2, 1, 1, {'splitwell': True}), ('electricity', 2, 2, 2, {'splitwell': True, 'em': 3}), ('direct-use', 2, 1, 1, {'sdac': True}), ('electricity', 3, 2, 2, {'sdac': True}), ('electricity', 2, 2, 1, {'resmodel': 1}), ('direct-use', 2, 2, 1, {'resmodel': 3})],
 }
 META = {
     'explanation': 'Every numeric quantity of a real, fully calculated Model is replaced by a fresh solver variable (each element of each '
@@ -99,6 +99,19 @@ def build_oracle(m, V, cfg):
     put('Interest Rate', lambda: V(ec + 'interest_rate'))
     put('Accrued financing during construction', lambda: V(ec + 'inflrateconstruction') * 100)
     put('Capacity factor', lambda: V(sp + 'utilization_factor') * 100, '%')
+    if getattr(m, 'sdacgteconomics', None) is not None and m.economics.DoSDACGTCalculations.value:
+        sd = 'sdacgteconomics.'
+        put('LCOD using grid-based electricity only', lambda: V(sd + 'LCOD_elec'))
+        put('LCOD using natural gas only', lambda: V(sd + 'LCOD_ng'))
+        put('LCOD using geothermal energy only', lambda: V(sd + 'LCOD_geo'))
+        put('CO2 Intensity using grid-based electricity only', lambda: V(sd + 'CO2total_elec') * 100.0, '%')
+        put('CO2 Intensity using natural gas only', lambda: V(sd + 'CO2total_ng') * 100.0, '%')
+        put('CO2 Intensity using geothermal energy only', lambda: V(sd + 'CO2total_geo') * 100.0, '%')
+        put('Geothermal LCOH', lambda: V(sd + 'LCOH'))
+        put('Geothermal Ratio (electricity vs heat)', lambda: V(sd + 'percent_thermal_energy_going_to_heat') * 100.0, '%')
+        put('Percent Energy Devoted To Process', lambda: V(sd + 'EnergySplit') * 100.0, '%')
+        put('Total Tonnes of CO2 Captured', lambda: V(sd + 'CarbonExtractedTotal'))
+        put('Total Cost of Capture', lambda: V(sd + 'S_DAC_GTCummCashFlow')[-1])
     put('Drilling and completion costs per production well', lambda: V(ec + 'cost_one_production_well'))
     put('Drilling and completion costs per injection well', lambda: V(ec + 'cost_one_injection_well'))
     put('Drilling and completion costs per vertical production well', lambda: V(ec + 'cost_one_production_well'))
@@ -269,6 +282,10 @@ def table_oracle(m, V, title):
         cols.append(lambda i: 0.0 if i < K else V(ec + 'Coam'))
         cols += [lambda i: S(ec + 'TotalRevenue', i), lambda i: S(ec + 'TotalCummRevenue', i)]
         return L + K, 0, cols
+    if title.startswith('S-DAC-GT PROFILE'):
+        sd = 'sdacgteconomics.'
+        cols = [(lambda i, n=n: S(sd + n, i)) for n in ('CarbonExtractedAnnually', 'S_DAC_GTCummCarbonExtracted', 'S_DAC_GTAnnualCost', 'S_DAC_GTCummCashFlow', 'CummCostPerTonne')]
+        return L, 1, cols
     if title.startswith('RESERVOIR POWER REQUIRED PROFILES'):
         cols = [lambda i: S(wb + 'PumpingPowerProd', i * T), lambda i: S(wb + 'PumpingPowerInj', i * T), lambda i: S(wb + 'PumpingPower', i * T)]
         return L, 1, cols
@@ -276,11 +293,11 @@ def table_oracle(m, V, title):
 
 
 TABLE_TITLES = ['HEATING, COOLING AND/OR ELECTRICITY PRODUCTION PROFILE', 'ANNUAL HEATING, COOLING AND/OR ELECTRICITY PRODUCTION PROFILE', 'REVENUE & CASHFLOW PROFILE',
-                'RESERVOIR POWER REQUIRED PROFILES']
+                'RESERVOIR POWER REQUIRED PROFILES', 'S-DAC-GT PROFILE']
 
 # ---- recorded findings on the pinned tree (regions are exact lists; see known_findings.json) ------------------------------
 KNOWN_UNIT_FROM_OTHER_PARAMETER = {tuple(x) for x in [['Drilling and completion costs per non-vertical section', 'economics.cost_lateral_section'], ['Fracture area', 'reserv.fracarea'], ['Fracture separation', 'reserv.fracsep'], ['Fracture width', 'reserv.fracwidth'], ['Reservoir volume', 'reserv.resvol'], ['Well separation', 'reserv.fracheight'], ['of which Absorption Chiller Cost', 'economics.Cplant'], ['of which Heat Pump Cost', 'economics.Cplant']]}   # (label, parameter whose unit is printed)
-KNOWN_PREFERRED_UNITS_LABEL = set(['Annual District Heating Demand', 'Average Buoyancy Pressure Drop', 'Average Cooling Production', 'Average Injection Well Pressure Drop', 'Average Injection Well Pump Pressure Drop', 'Average Net Electricity Generation', 'Average Net Heat Production', 'Average Production Temperature', 'Average Production Well Pressure Drop', 'Average Production Well Pump Pressure Drop', 'Average Production Well Temperature Drop', 'Average Reservoir Heat Extraction', 'Average Reservoir Pressure Drop', 'Average Total Electricity Generation', 'Average production well temperature drop', 'Constant production well temperature drop', 'Initial Cooling Production', 'Initial Net Electricity Generation', 'Initial Net Heat Production', 'Initial Production Temperature', 'Initial Total Electricity Generation', 'Initial geofluid availability', 'Maximum Cooling Production', 'Maximum Daily District Heating Demand', 'Maximum Geothermal Heating Production', 'Maximum Net Electricity Generation', 'Maximum Net Heat Production', 'Maximum Peaking Boiler Heat Production', 'Maximum Production Temperature', 'Maximum Total Electricity Generation', 'Minimum Cooling Production', 'Minimum Daily District Heating Demand', 'Minimum Geothermal Heating Production', 'Minimum Net Electricity Generation', 'Minimum Net Heat Production', 'Minimum Peaking Boiler Heat Production', 'Minimum Production Temperature', 'Minimum Total Electricity Generation', 'Project IRR', 'Project NPV', 'Project Payback Period', 'Total Average Pressure Drop', 'Wellbore Heat Transmission Model = Constant Temperature Drop'])
+KNOWN_PREFERRED_UNITS_LABEL = set(['LCOD using grid-based electricity only', 'LCOD using natural gas only', 'LCOD using geothermal energy only', 'Geothermal LCOH', 'Total Tonnes of CO2 Captured', 'Total Cost of Capture', 'Annual District Heating Demand', 'Average Buoyancy Pressure Drop', 'Average Cooling Production', 'Average Injection Well Pressure Drop', 'Average Injection Well Pump Pressure Drop', 'Average Net Electricity Generation', 'Average Net Heat Production', 'Average Production Temperature', 'Average Production Well Pressure Drop', 'Average Production Well Pump Pressure Drop', 'Average Production Well Temperature Drop', 'Average Reservoir Heat Extraction', 'Average Reservoir Pressure Drop', 'Average Total Electricity Generation', 'Average production well temperature drop', 'Constant production well temperature drop', 'Initial Cooling Production', 'Initial Net Electricity Generation', 'Initial Net Heat Production', 'Initial Production Temperature', 'Initial Total Electricity Generation', 'Initial geofluid availability', 'Maximum Cooling Production', 'Maximum Daily District Heating Demand', 'Maximum Geothermal Heating Production', 'Maximum Net Electricity Generation', 'Maximum Net Heat Production', 'Maximum Peaking Boiler Heat Production', 'Maximum Production Temperature', 'Maximum Total Electricity Generation', 'Minimum Cooling Production', 'Minimum Daily District Heating Demand', 'Minimum Geothermal Heating Production', 'Minimum Net Electricity Generation', 'Minimum Net Heat Production', 'Minimum Peaking Boiler Heat Production', 'Minimum Production Temperature', 'Minimum Total Electricity Generation', 'Project IRR', 'Project NPV', 'Project Payback Period', 'Total Average Pressure Drop', 'Wellbore Heat Transmission Model = Constant Temperature Drop'])
 
 
 def params_for(kind, L, T, K, x):
@@ -592,6 +609,7 @@ def concrete_report(cfg):
         from .. import shim
         with contextlib.redirect_stdout(io.StringIO()), shim.shadow((O, 'print_outputs_rich', lambda *a, **k: None)):
             m.outputs.PrintOutputs(m)
+            writer.print_sections(m)
         text = open(m.outputs.output_file).read()
     finally:
         import shutil
@@ -710,6 +728,7 @@ def replay_payback(cfg, inp):
         m.outputs.output_file = os.path.join(d, 'r.out')
         with contextlib.redirect_stdout(io.StringIO()), shim.shadow((O, 'print_outputs_rich', lambda *a, **k: None)):
             m.outputs.PrintOutputs(m)
+            writer.print_sections(m)
         text = open(m.outputs.output_file).read()
     finally:
         shutil.rmtree(d, ignore_errors=True)
@@ -769,6 +788,7 @@ def replay_unit(cfg, label, kind_of_check):
         m.outputs.output_file = os.path.join(d, 'r.out')
         with contextlib.redirect_stdout(io.StringIO()), shim.shadow((O, 'print_outputs_rich', lambda *a, **k: None), (O.Outputs, '_convert_units', lambda self, model: None)):
             m.outputs.PrintOutputs(m)
+            writer.print_sections(m)
         text = open(m.outputs.output_file).read()
     finally:
         shutil.rmtree(d, ignore_errors=True)
@@ -806,6 +826,7 @@ def replay_header(cfg, title, badtag, col_owner):
         m.outputs.output_file = os.path.join(d, 'r.out')
         with contextlib.redirect_stdout(io.StringIO()), shim.shadow((O, 'print_outputs_rich', lambda *a, **k: None), (O.Outputs, '_convert_units', lambda self, model: None)):
             m.outputs.PrintOutputs(m)
+            writer.print_sections(m)
         lines = open(m.outputs.output_file).read().splitlines()
     finally:
         shutil.rmtree(d, ignore_errors=True)
